@@ -278,7 +278,9 @@ def lexer_section(ctx, c06):
                       'expected': expected_stream(lead, pieces, toks)})
     # systematic: every token kind followed by every kind of gap (tight where the pair allows it, each white space character, a comment)
     # and a few different next tokens
-    first_gaps = ['', ' ', '\t', '\n', '\r', '\u000b', '\u000c', '\u0085', '\u00a0', '\u2003', '\u2028', '\u3000', '/**/', '/* c */', '//c\n', '\t\t', ' \t']
+    # every white space character of the lexer; U+1680, U+180E and U+FEFF are name characters as well: not after a name or a type name
+    ws_all = [chr(c) for c in [9, 10, 11, 12, 13, 32, 133, 160, 5760, 6158] + list(range(8192, 8204)) + [8232, 8233, 8239, 8287, 12288, 65279]]
+    first_gaps = [''] + ws_all + ['/**/', '/* c */', '//c\n', '\t\t', ' \t']
     sys_keys = ['a', 'b', 'iff', 'an']
     nexts = [('b', 'Name', [cps('b')], 'atom'), ('1', 'Numeric', [cps('1'), []], 'atom'), ('(', 'LeftParen', [], ''), ('=', 'Eq', [], ''),
              ('"s"', 'String', [cps('s')], 'atom'), ('.5', 'Numeric', [cps('0'), cps('5')], 'atom'), ('*', 'Mul', [], ''), ('>', 'Gt', [], ''), ('.', 'Dot', [], ''), ('and', 'And', [], 'kw')]
@@ -295,6 +297,8 @@ def lexer_section(ctx, c06):
                 if nx is None and t[3] == 'kw' and g[:1] == '/':
                     continue
                 if t[0] == '/' and g[:1] == '/':
+                    continue
+                if g in ('\u1680', '\u180e', '\ufeff') and t[1] in ('Name', 'BuiltInTypeName'):
                     continue
                 if g == '' and nx is not None and t[0] == '/' and nx[0][0] in '/*':
                     continue
